@@ -50,6 +50,15 @@ func vh_C08_L1_two_party_shutdown() {
 		vassert(werr == nil, "write before shutdown is accepted")
 	}
 	crossed := vPick(2) == 1
+	var sentB []byte
+	if crossed && vPick(2) == 1 { // the other side also has data queued when it shuts down
+		sb, berr := b.OpenStream(2, PayloadTypeWebRTCBinary)
+		vassert(berr == nil, "open stream")
+		d := nondetBytes(1)
+		sentB = append(sentB, d[0])
+		_, werrB := sb.WriteSCTP(d, PayloadTypeWebRTCBinary)
+		vassert(werrB == nil, "write accepted")
+	}
 	_ = a.Shutdown(vNewClosedCtx())
 	vassert(a.getState() == shutdownPending || a.getState() == shutdownSent, "Shutdown leaves established")
 	vassert((a.getState() == shutdownSent) == (nmsg == 0), "SHUTDOWN-SENT is entered at once only when nothing is queued")
@@ -82,6 +91,15 @@ func vh_C08_L1_two_party_shutdown() {
 		}
 	}
 	vassert(s.BufferedAmount() == 0, "sender drained")
+	if len(sentB) > 0 {
+		as := a.streams[2]
+		vassert(as != nil, "first side has the peer's stream")
+		if as != nil {
+			buf := make([]byte, 4)
+			n, _, rerr := as.reassemblyQueue.read(buf)
+			vassert(rerr == nil && n == 1 && buf[0] == sentB[0], "in a crossed shutdown the data of both sides is delivered")
+		}
+	}
 	vobserve("nmsg", uint64(nmsg))
 	vcover("end")
 }
@@ -167,6 +185,12 @@ func vh_C08_L1_t2_retransmits() {
 	}
 	vassert(a.t2Shutdown.isRunning(), "T2 keeps running (no retry limit)")
 	vassert(a.getState() != closed, "retransmission does not end the association")
+	// shutdown packets are retransmitted for as long as the association lives
+	for i := 0; i < 9; i++ {
+		vassert(vFireRtx(a, a.t2Shutdown), "T2 expires again")
+		vassert(len(vWriterWake(a)) == 1, "and the shutdown chunk goes out again")
+	}
+	vassert(a.t2Shutdown.isRunning(), "T2 never gives up")
 	vcover("end")
 }
 
